@@ -13,7 +13,8 @@ EXTENDS Ledger, Json, Integers
 
 VARIABLE c
 
-Shapes == {"none", "direct", "two", "three", "elsewhere1", "elsewhere2", "broken", "selfhop", "badsig"}
+Shapes == {"none", "direct", "two", "three", "elsewhere1", "elsewhere2", "broken", "selfhop", "badsig",
+           "selfhop_first", "selfhop_mid"}
 Deltas == {-1, 0, 1}
 DtClasses == {"1ms", "half", "hb-1", "hb", "2hb-1", "2hb", "2hb+1"}
 Seeds == {1, 2}
@@ -24,13 +25,15 @@ Path(s) == CASE s = "none" -> <<>>
              [] s = "three" -> <<"k1", "k2", "k3", "c">>
              [] s = "elsewhere1" -> <<"k1", "k2">>
              [] s = "elsewhere2" -> <<"k1", "k2", "k3">>
+             [] s = "selfhop_first" -> <<"c", "c">>            \* the creator routes the transaction to itself
+             [] s = "selfhop_mid" -> <<"k1", "k2", "k2", "c">>
              [] OTHER -> <<"k1", "k2", "c">>
 EditOf(s) == CASE s = "broken" -> "broken_path" [] s = "selfhop" -> "self_hop" [] s = "badsig" -> "bad_hop_sig" [] OTHER -> ""
 (* the hops as the receiver sees them *)
 Hops(s) == CASE s = "broken" -> <<<<"k1", "k2">>, <<"m", "c">>>>
              [] s = "selfhop" -> <<<<"k1", "k2">>, <<"k2", "k2">>>>
              [] OTHER -> [i \in 1..(Len(Path(s)) - 1) |-> <<Path(s)[i], Path(s)[i + 1]>>]
-PathOk(s) == s \notin {"broken", "selfhop", "badsig"}
+PathOk(s) == s \notin {"broken", "selfhop", "badsig", "selfhop_first", "selfhop_mid"}
 Delivers(s) == s \in {"direct", "two", "three"}
 Dt(d) == CASE d = "1ms" -> 1 [] d = "half" -> HB \div 2 [] d = "hb-1" -> HB - 1 [] d = "hb" -> HB
            [] d = "2hb-1" -> 2 * HB - 1 [] d = "2hb" -> 2 * HB [] d = "2hb+1" -> 2 * HB + 1
